@@ -10,7 +10,17 @@
    injected header byte for byte, extraction result = exactly the encoded context / unchanged.
 3. code -> spec: random byte-level mutations of valid headers and random contexts run through the
    real propagator; each byte abstracted to a token; TraceContextHeaderTrace.tla (TLC) decides.
+4. (round 4) the tail family of the same spec: header VALUES given as tokens (one per byte, every byte value has
+   exactly one token): every prefix (length 0..full+2) of a well-formed traceparent (version 00, a higher version
+   without / with trailing fields) with one of its last positions replaced by every token, every token string of
+   length <= ShortLen, and the same for tracestate values next to a well-formed traceparent.  TLC computes the
+   expected outcome of exactly that value from the token-level grammar and checks the clauses that apply
+   (TailAcceptDocumented, TailTruncatedRejected, TailEmptyIsAbsent, TailAnchored, TailTsNeverBlocks,
+   TailTsExactOnlySimple); the harness expands the replaced position to ALL byte values of the token's class and
+   hands each value over as an exactly-sized heap view (ASan) and once more followed in-buffer by continuation
+   bytes (the observation must not depend on them).
 The oracle is always TLC (BEH expectation or acceptance by the trace spec)."""
+import concurrent.futures as cf
 import json
 
 from lib import build, propagation, tlc
@@ -35,6 +45,10 @@ CFG = """CONSTANTS
   RepFlags = {1, 171}
   MaxFaults = %(k)d
   SweepFaults = %(sw)d
+  TailBases = {}
+  TailPos = 0
+  ShortKinds = {}
+  ShortLen = 0
 INIT Init
 NEXT Next
 CONSTRAINT Budget
@@ -51,6 +65,10 @@ TRACE_CFG = """CONSTANTS
   RepFlags = {1}
   MaxFaults = 0
   SweepFaults = 0
+  TailBases = {}
+  TailPos = 0
+  ShortKinds = {}
+  ShortLen = 0
 INIT TInit
 NEXT TNext
 CONSTRAINT Progress
@@ -58,6 +76,27 @@ INVARIANT Report
 POSTCONDITION Accepted
 CHECK_DEADLOCK FALSE
 """
+TAIL_CFG = """CONSTANTS
+  Dev = {}
+  TidC = {"rand"}
+  SidC = {"rand"}
+  TsC = {"none"}
+  NFlag = 256
+  RepFlags = {1}
+  MaxFaults = 0
+  SweepFaults = 0
+  TailBases = {%(bases)s}
+  TailPos = %(pos)d
+  ShortKinds = {"tp", "ts"}
+  ShortLen = %(shortlen)d
+INIT InitTail
+NEXT Next
+INVARIANTS TypeOK TailTypeOK TailAcceptDocumented TailTruncatedRejected TailEmptyIsAbsent TailAnchored TailTsNeverBlocks TailTsExactOnlySimple EmitAll
+"""
+TAIL_TIERS = {"quick": {"bases": ["v00", "hi", "hiext", "ts3"], "pos": 2, "shortlen": 2},
+              "thorough": {"bases": ["v00", "hi", "hiext", "ts3", "tsws"], "pos": 3, "shortlen": 3}}
+TAIL_ID0 = 3 * 10 ** 9
+NTOK = 30
 MAX_REPORTS = 12
 
 
@@ -77,8 +116,14 @@ def _bounds(ctx):
 
 
 def model_check(ctx):
-    """Two TLC runs: ideal (property invariants + coverage + EmitAll = the BEH lines) and as-implemented."""
+    """Three TLC runs: ideal (property invariants + coverage + EmitAll = the BEH lines), as-implemented, and the
+    tail family."""
     k, sw = _bounds(ctx)
+    tt = TAIL_TIERS[ctx.tier]
+    ct = _cfg(ctx, "mc-tail.cfg", TAIL_CFG % {"bases": _devset(tt["bases"]), "pos": tt["pos"], "shortlen": tt["shortlen"]})
+    ex = cf.ThreadPoolExecutor(max_workers=1)
+    # the tail family has its own initial states: its run goes on beside the other two
+    ftail = ex.submit(tlc.tlc, MODULE, ct, rundir=ctx.rundir.path, workers=3, timeout_s=900, tag="mc-tail")
     # the named deviations concern Inject only; the carrier mutation graph does not depend on Dev and is
     # explored in the ideal run, so the as-implemented run keeps to the unmutated carriers
     c = _cfg(ctx, "mc-dev.cfg", CFG % dict(SMALL, dev=_devset(ALLDEVS), k=0, sw=0, inv=INVS))
@@ -92,7 +137,67 @@ def model_check(ctx):
     for a in ("Init", "Inject", "ExtractRT", "Extract", "Mut", "MutTs"):
         if r.coverage.get(a, (0, 0))[0] == 0:
             raise Broken("vacuity: action %s never taken" % a)
-    return r
+    rt = ftail.result()
+    ex.shutdown()
+    ctx.add_tlc("%s tail family: prefixes of %s, last %d positions x every token, token strings of length <= %d "
+                "(+ behaviour export)" % (MODULE, "/".join(tt["bases"]), tt["pos"], tt["shortlen"]), rt)
+    tlc.must_ok(rt, "%s model checking (tail family)" % MODULE)
+    # (no -coverage here: every TailExtract step prints its BEH line; generate_tail counts them against the states)
+    return r, rt
+
+
+def generate_tail(ctx, rt):
+    """The tail family's BEH lines + the vacuity guards on what TLC enumerated."""
+    tt = TAIL_TIERS[ctx.tier]
+    cases = propagation.beh_cases(rt, "C09 tail generation")
+    if 2 * len(cases) != rt.distinct:
+        raise Broken("vacuity (tail family): %d states but %d TailExtract lines" % (rt.distinct, len(cases)))
+    toks = propagation.printed_any(rt.out, "TAILTOK")
+    if not toks or len(toks) != NTOK:
+        raise Broken("tail run did not print the token vocabulary: %s" % toks)
+    groups, outs, short, tsk = {}, {}, {}, {}
+    for c in cases:
+        if c["k"] != "t":
+            raise Broken("tail run printed a line of kind %s" % c["k"])
+        c["id"] += TAIL_ID0
+        t = c["tl"]
+        outs[(t["h"], c["exp"]["o"])] = outs.get((t["h"], c["exp"]["o"]), 0) + 1
+        if t["h"] == "ts":
+            kk = c["exp"]["ts"]["k"] + ("+" if c["exp"]["ts"]["e"] else "")
+            tsk[kk] = tsk.get(kk, 0) + 1
+        if t["b"] == "short":
+            short[t["h"]] = short.get(t["h"], 0) + 1
+        else:
+            groups.setdefault((t["b"], t["cut"], t["pos"]), set()).add(t["tok"])
+    need = [("tp", "accept"), ("tp", "either"), ("tp", "reject"), ("ts", "accept")]
+    if any(outs.get(x, 0) == 0 for x in need) or any(k[0] == "ts" and k[1] != "accept" for k in outs):
+        raise Broken("vacuity (tail family): outcomes %s" % outs)
+    if any(tsk.get(x, 0) == 0 for x in ("exact", "exact+", "any")):
+        raise Broken("vacuity (tail family): trace-state expectations %s" % tsk)
+    nshort = sum(NTOK ** i for i in range(tt["shortlen"] + 1))
+    if sorted(short) != ["tp", "ts"] or any(v != nshort for v in short.values()):
+        raise Broken("vacuity (tail family): short values %s, expected %d per header" % (short, nshort))
+    cuts = {}
+    for (b, cut, pos), tk in groups.items():
+        cuts.setdefault(b, {}).setdefault(cut, set()).add(pos)
+        if pos > 0 and tk != set(toks):
+            raise Broken("vacuity (tail family): %s cut %d pos %d only has tokens %s" % (b, cut, pos, sorted(tk)))
+    if sorted(cuts) != sorted(tt["bases"]):
+        raise Broken("vacuity (tail family): bases %s" % sorted(cuts))
+    lengths = {}
+    for b, cs in cuts.items():
+        top = max(cs)
+        if sorted(cs) != list(range(top + 1)) or any(cs[n] != set(range(min(n, tt["pos"]) + 1)) for n in cs):
+            raise Broken("vacuity (tail family): prefixes of %s incomplete" % b)
+        lengths[b] = top
+    if any(lengths.get(b, 0) < 57 for b in ("v00", "hi")) or lengths.get("hiext", 0) < 62:
+        raise Broken("vacuity (tail family): prefix lengths %s" % lengths)
+    ctx.extra["tail_family"] = {"cases": len(cases), "token_classes": len(toks),
+                                "prefix_lengths_0_to": lengths, "positions_replaced": tt["pos"],
+                                "short_values_per_header": nshort,
+                                "expected": {"%s/%s" % k: v for k, v in sorted(outs.items())},
+                                "tracestate_expectation": tsk}
+    return cases
 
 
 def generate(ctx, r):
@@ -233,6 +338,12 @@ def canaries(cases):
 def _what(cs, res):
     r = res.get("res", {})
     conc = r.get("concrete", res.get("concrete", {}))
+    if cs["k"] == "t":
+        dep = " - the result DEPENDS ON BYTES BEHIND THE VIEW (with an exactly-sized buffer: %s)" % json.dumps(
+            r.get("observed_with_exact_buffer")) if r.get("depends_on_bytes_behind_the_view") else ""
+        return "Extract(traceparent=%s, tracestate=%s; %s view: %s, behind it %s): expected %s, observed %s%s" % (
+            json.dumps(conc.get("traceparent")), json.dumps(conc.get("tracestate")), conc.get("swept"), conc.get("buffer"),
+            json.dumps(conc.get("behind")), json.dumps(cs["exp"]), json.dumps(r.get("observed")), dep)
     if cs["k"] == "x":
         return "Extract(traceparent=%s, tracestate=%s): expected %s, observed %s" % (
             json.dumps(conc.get("traceparent")), json.dumps(conc.get("tracestate")), json.dumps(cs["exp"]),
@@ -322,6 +433,83 @@ def replay_cases(ctx, exe, cases):
                     "case": cs, "result": results.get(cs["id"])})
 
 
+def replay_tail(ctx, exe, tcases):
+    """The tail family: every case is expanded by the harness to all byte values of its replaced / class positions."""
+    skipped0 = ctx.extra.pop("cases_skipped_after_crash_cap", 0)      # (of the class-level replay)
+    results = propagation.run_cases(ctx, exe, tcases, 1, procs=4, tag="tail")
+    byid = {c["id"]: c for c in tcases}
+    # binding canaries: a corrupted expectation must be flagged (chosen among cases the real code passed)
+    can = []
+    for c in tcases:
+        r = results.get(c["id"], {})
+        if r.get("v") != "ok":
+            continue
+        kinds = set(x[0] for x in can)
+        t, e = c["tl"], c["exp"]
+        if "flags" not in kinds and t["h"] == "tp" and e["o"] == "accept":
+            k = json.loads(json.dumps(c))
+            k["exp"]["flags"] = (k["exp"]["flags"] + 16) % 256
+            can.append(("flags", "well-formed traceparent expected with another flags byte", k))
+        if "either" not in kinds and t["h"] == "tp" and e["o"] == "either" and r.get("valid", 0) == r.get("n", -1):
+            k = json.loads(json.dumps(c))
+            k["exp"]["o"] = "reject"
+            can.append(("either", "a value of the don't-care band that the code accepts expected to be rejected", k))
+        if "trunc" not in kinds and t["h"] == "tp" and e["o"] == "reject" and t["b"] == "v00" and t["cut"] == 54 and t["pos"] == 0:
+            k = json.loads(json.dumps(c))
+            full = k["tp"] + k["rest"][:1]
+            k["exp"] = {"o": "accept", "tid": full[3:35], "sid": full[36:52], "flags": full[53] * 16 + full[54],
+                        "ts": {"k": "exact", "e": []}}
+            can.append(("trunc", "traceparent cut to 54 bytes expected to be accepted as if the 55th were there", k))
+        if "entries" not in kinds and t["h"] == "ts" and e["ts"]["k"] == "exact" and len(e["ts"]["e"]) >= 2:
+            k = json.loads(json.dumps(c))
+            k["exp"]["ts"]["e"] = k["exp"]["ts"]["e"][:-1]
+            can.append(("entries", "tracestate expected without its last member", k))
+        if "ids" not in kinds and t["h"] == "ts" and e["ts"]["k"] == "any":
+            k = json.loads(json.dumps(c))
+            k["exp"]["sid"][-1] = (k["exp"]["sid"][-1] + 1) % 16
+            can.append(("ids", "traceparent next to an odd tracestate expected with another span id", k))
+    crashed = any(r.get("v") == "crash" for r in results.values())
+    if len(can) != 5 and not crashed:
+        raise Broken("tail family: no case for a canary (%s)" % [x[0] for x in can])
+    for i, (_, _, k) in enumerate(can):
+        k["orig"], k["seed_id"], k["id"] = k["id"], k["id"], TAIL_ID0 + 10 ** 8 + i
+    cres = propagation.run_cases(ctx, exe, [k for _, _, k in can], 1, procs=1, tag="tailcanary") if can else {}
+    for _, why, k in can:
+        if cres.get(k["id"], {}).get("v") not in ("bad", "crash"):
+            raise Broken("binding canary not detected (tail family: %s): %s" % (why, cres.get(k["id"])))
+    ctx.extra["canaries_detected"] = ctx.extra.get("canaries_detected", 0) + len(can)
+    # completeness: at every (form, prefix length, replaced position) the classes of the tokens are all 256 byte values
+    clean = all(r.get("v") == "ok" for r in results.values()) and len(results) == len(tcases)
+    groups, execs = {}, 0
+    for cid, r in results.items():
+        execs += r.get("n", 0)
+        t = byid[cid]["tl"] if cid in byid else None
+        if t and t["b"] != "short" and t["pos"] > 0:
+            g = (t["b"], t["cut"], t["pos"])
+            groups[g] = groups.get(g, 0) + r.get("bytes", 0)
+    if clean and (not groups or any(v != 256 for v in groups.values())):
+        raise Broken("tail family: byte values per (form, prefix, position) are not 256: %s" % sorted(
+            (g, v) for g, v in groups.items() if v != 256)[:5])
+    cnt = classify(ctx, tcases, results, 1)
+    if skipped0 or ctx.extra.get("cases_skipped_after_crash_cap"):
+        ctx.extra["cases_skipped_after_crash_cap"] = skipped0 + ctx.extra.get("cases_skipped_after_crash_cap", 0)
+    ctx.extra["tail_family"].update({"executions": execs, "positions_swept_over_all_256_byte_values": len(groups),
+                                     "verdicts": {k: cnt[k] for k in ("ok", "bad", "crash")},
+                                     "observed_valid": cnt["valid"], "observed_unchanged": cnt["unchanged"]})
+    if clean and (cnt["valid"] == 0 or cnt["unchanged"] == 0):
+        raise Broken("vacuity (tail family): the real propagator never accepted / never rejected: %s" % cnt)
+    ctx.traces += len(tcases)
+    ctx.evaluations += execs
+    for c in tcases:
+        ctx.distinct.add(("beh", c["id"]))
+    for c in tcases:
+        r = results.get(c["id"], {})
+        if "res" in r and r.get("v") == "ok":
+            ctx.sample({"kind": "TLC tail-family line (token-level value, expected outcome), expanded to %d executions" % r.get("n", 0),
+                        "case": c, "result": r})
+            break
+
+
 def _describe(ev):
     if ev.get("e") == "I":
         return "Inject(flags=%s, %s trace-state members) wrote traceparent=%s, extracting it gave %s" % (
@@ -340,7 +528,10 @@ def record_validate(ctx, exe):
 def run(ctx):
     ctx.assumptions += [
         "memory safety (never crashes / reads out of bounds) is not decided by the specification: it is covered only by running the "
-        "model-generated and mutated inputs under AddressSanitizer+UBSan with exactly-sized, non-NUL-terminated carrier buffers",
+        "model-generated and mutated inputs under AddressSanitizer+UBSan with exactly-sized, non-NUL-terminated carrier buffers (tail "
+        "family: every prefix / short value x all 256 byte values at its last positions, plus in-buffer continuation bytes)",
+        "tail family: a tracestate that is not a list of simple members (key [a-z][a-z0-9]*, value [0-9A-Za-z]+) leaves the extracted "
+        "trace state open (its grammar belongs to C14); the traceparent alone decides whether a context is extracted",
         "concretisation table of harness/c09_w3c.cc (abstract class -> bytes) and the byte -> token table are trusted",
         "ids are symbolic in the spec (classes); their 2^128 x 2^64 values are sampled by the seeded concretiser, the 256 flag bytes are enumerated",
         "trace states: simple valid lists only (1, 3, 32 members); the TraceState grammar itself belongs to C14",
@@ -352,11 +543,16 @@ def run(ctx):
     exe = build.harness("c09_w3c", ["c09_w3c.cc"], "asan", need_sdk=False)
     phases = {}
     t0 = ctx.timer.s()
-    cases = generate(ctx, model_check(ctx))
+    r, rt = model_check(ctx)
+    cases = generate(ctx, r)
+    tcases = generate_tail(ctx, rt)
     phases["tlc_model_check_and_export_s"] = round(ctx.timer.s() - t0, 1)
     t0 = ctx.timer.s()
     replay_cases(ctx, exe, cases)
     phases["replay_s"] = round(ctx.timer.s() - t0, 1)
+    t0 = ctx.timer.s()
+    replay_tail(ctx, exe, tcases)
+    phases["replay_tail_s"] = round(ctx.timer.s() - t0, 1)
     t0 = ctx.timer.s()
     record_validate(ctx, exe)
     phases["record_validate_s"] = round(ctx.timer.s() - t0, 1)
